@@ -1,6 +1,6 @@
 """C12 - HTML, JSON, Markdown and text outputs all render and carry the same data.
 
-Exhaustive: every set of <= K transactions over a 23-transaction alphabet (merchant names that differ only in
+Exhaustive: every set of <= K transactions over a 27-transaction alphabet (merchant names that differ only in
 quotes, spaces or underscores; descriptions containing </script>, quotes, backslashes, the template
 placeholders, braces, non-ASCII; refunds, income with negative amount, transfers in/out, investment, a merchant
 netting to zero; extra fields) x {no views, views} is analysed by the real analyze_transactions and rendered by
@@ -27,7 +27,7 @@ from mc.ref import money
 
 PROPERTY = "C12"
 LEVEL = "exploration"
-RULE = ("cases = every subset of 1..K transactions (K=3 quick, 4 thorough) of a 25-transaction alphabet x {without views, with two views}; each case "
+RULE = ("cases = every subset of 1..K transactions (K=3 quick, 4 thorough) of a 27-transaction alphabet x {without views, with two views}; each case "
         "renders 11 outputs (2 HTML modes, JSON x3, Markdown x3 verbosities, text summary, views summary, plus the separate data file). "
         "non-trivial = subsets with >=2 merchants whose derived ids collide, or with a description containing markup / placeholder text, or mixing "
         ">=2 money buckets; subsets are distinct by construction")
@@ -70,7 +70,14 @@ ALPHA = [
     # amounts with three decimals (currencies with a 1/1000 unit, fuel prices): they are analysed, listed and summed as they are
     ("Kwd", "three decimals", 4.504, [], D(2025, 1, 26), FOOD, None),
     ("Kwd", "three decimals again", 7.003, [], D(2025, 2, 26), FOOD, None),
+    # what classification hands over for a transaction no categorising rule matched: tagged by a tag-only rule (match record without a
+    # pattern) and not matched at all (no match record)
+    ("Mystery", "UNMATCHED BIG", 612.5, ["large"], D(2025, 1, 27), ("Unknown", "Unknown"), None),
+    ("Riddle", "UNMATCHED PLAIN", 3.5, [], D(2025, 2, 27), ("Unknown", "Unknown"), None),
 ]
+# match records of the two unmatched entries, as merchant_utils builds them
+MATCH_INFO = {"Mystery": {"pattern": None, "source": "auto", "tags": ["large"], "tag_sources": {"large": {"rule": "Large purchases", "pattern": "amount > 500"}}},
+              "Riddle": None}
 VIEWS = "[All]\nfilter: true\n\n[Food Only]\ndescription: food & \"drink\" </script>\nfilter: category == \"Food\"\n"
 
 
@@ -78,6 +85,8 @@ def mk(i):
     m, desc, amt, tags, d, (cat, sub), extra = ALPHA[i]
     t = {"date": d, "description": m, "raw_description": desc, "amount": amt, "merchant": m, "category": cat, "subcategory": sub, "source": "Src " + str(i % 2),
          "location": None, "tags": list(tags), "match_info": {"pattern": 'contains("' + m.upper() + '")', "source": "user", "tags": list(tags)}}
+    if m in MATCH_INFO:
+        t["match_info"] = MATCH_INFO[m] and dict(MATCH_INFO[m])
     if extra:
         t["extra_fields"] = dict(extra)
     return t
